@@ -400,6 +400,33 @@ func checkC11(c *vlib.Ctx) (string, string) {
 		ck.Try(c11Case{Passthrough: x.pass, Cfg: x.lit, Debug: x.dbg, Req: dreqs[ix[1]], Handler: handlers[1]})
 	})
 	c.Set("dictionary_cells", dp.Count())
+	// request attributes that are not headers (protocol, TLS, request target forms such as `OPTIONS *`, contexts):
+	// the same request classes, every attribute, every configuration, three handlers
+	var areqs []vlib.Req
+	for _, m := range []string{"OPTIONS", "GET", "options"} {
+		for _, o := range [][]string{nil, {"https://a.example"}, {"https://evil.example"}} {
+			for _, a := range [][]string{nil, {"PUT"}, {""}} {
+				for _, at := range vlib.Attrs {
+					hdr := map[string][]string{}
+					if o != nil {
+						hdr["Origin"] = o
+					}
+					if a != nil {
+						hdr["Access-Control-Request-Method"] = a
+					}
+					areqs = append(areqs, vlib.Req{Method: m, Hdr: hdr, Attr: at})
+				}
+			}
+		}
+	}
+	ap := vlib.Product{Sizes: []int{len(dcds), len(areqs), 3}}
+	c.ParRange(ap.Count(), 256, "C11 request attributes", func(i int64) {
+		var tmp [3]int
+		ix := ap.At(i, tmp[:0])
+		x := dcds[ix[0]]
+		ck.Try(c11Case{Passthrough: x.pass, Cfg: x.lit, Debug: x.dbg, Req: areqs[ix[1]], Handler: handlers[ix[2]]})
+	})
+	c.Set("attribute_cells", ap.Count())
 	c.States.Add(c.Evaluations.Load())
 	c.Transitions.Add(c.Evaluations.Load())
 	c.Set("product_cells_before_quick_tier_thinning", prod.Count())
